@@ -1,7 +1,7 @@
 (* C02 — property theorems only.  Proofs are in C02/Proofs.v and Base/DecFacts.v.
    The theorems are about the specification model (Base/DecRound.v); the C kernel is tied to it by the correspondence check only. *)
 From Coq Require Import ZArith NArith Bool List.
-From DV Require Import Base.Dec Base.DecFacts Base.DecRound C02.Model C02.Proofs.
+From DV Require Import Base.Dec Base.DecFacts Base.DecRound C02.Model C02.Proofs C02.Sqrt.
 Import ListNotations.
 Open Scope Z_scope.
 
@@ -55,6 +55,48 @@ Theorem C02_sqrt_sticky : forall n D, (2 <= D)%N ->
   (4 * Z.of_N n = ((2 * c + 1) * P) ^ 2 -> Z.even c = true) /\
   (0 < c -> 4 * Z.of_N n = ((2 * c - 1) * P) ^ 2 -> Z.even c = true).
 Proof. exact sqrt_sticky. Qed.
+
+(* dsqrt's scaled radicand c * 10^(2k) always has a floor root of at least 36 digits, so at least three digits of 10*root + sticky are
+   dropped by the rounding step: C02_sqrt_sticky applies to every square root the model computes (analogue of C02_div_drops_at_least_3) *)
+Theorem C02_sqrt_root_digits : forall c, (0 < c)%N ->
+  let k := Z.to_N (Z.max 0 (36 - Z.of_N (ndigits c) / 2)) in
+  (10 ^ 35 <= N.sqrt (c * 10 ^ (2 * k)))%N.
+Proof. exact dsqrt_root_digits. Qed.
+Theorem C02_sqrt_drops_at_least_3 : forall c e, (0 < c)%N ->
+  let k := Z.to_N (Z.max 0 (36 - Z.of_N (ndigits c) / 2)) in
+  let s := N.sqrt (c * 10 ^ (2 * k)) in
+  forall t, (t <= 1)%N -> 3 <= target_exp (10 * s + t) e - e.
+Proof. exact dsqrt_drops_at_least_3. Qed.
+
+(* HEADLINE for sqrt: for EVERY positive finite decimal d (any coefficient, any exponent) a result r of dsqrt is a decimal128 datum whose
+   value is c * 10^q, where c * 10^q is a nearest multiple of 10^q to the exact square root of d, half-way cases going to an even c
+   (integers only: at every common scale 10^B with B <= q and 2B <= expo d, X = 4 * d / 10^(2B) lies between the squares of the doubled
+   half-way points lo = (2c-1) * 10^(q-B) and hi = (2c+1) * 10^(q-B)), c has at most 34 digits (c <= 10^34) and the quantum is the
+   34-digit one (10^33 <= c) unless q is the smallest exponent -6176 *)
+Theorem C02_sqrt_correctly_rounded : forall d r, (0 < coef d)%N -> neg d = false -> dsqrt d = Some r ->
+  exists (c : N) (q : Z),
+    in_format r = true /\ neg r = false /\ veq r (mkdec false c q) /\
+    (c <= 10 ^ 34)%N /\ ETINY <= q /\ (ETINY < q -> (10 ^ 33 <= c)%N) /\
+    forall B, B <= q -> 2 * B <= expo d ->
+      let X := 4 * Z.of_N (coef d) * 10 ^ (expo d - 2 * B) in
+      let lo := (2 * Z.of_N c - 1) * 10 ^ (q - B) in
+      let hi := (2 * Z.of_N c + 1) * 10 ^ (q - B) in
+      X <= hi ^ 2 /\ ((0 < c)%N -> lo ^ 2 <= X) /\
+      (X = hi ^ 2 -> N.even c = true) /\ ((0 < c)%N -> X = lo ^ 2 -> N.even c = true).
+Proof. exact dsqrt_correctly_rounded. Qed.
+
+(* the square root of a non-negative decimal128 datum exists (never null: no overflow, no underflow) *)
+Theorem C02_sqrt_defined : forall d, in_format d = true -> coef d = 0%N \/ neg d = false -> exists r, dsqrt d = Some r.
+Proof. exact dsqrt_defined. Qed.
+
+Example C02_sqrt_nonvacuous :
+  dsqrt (mkdec false 2 0) = Some (mkdec false 1414213562373095048801688724209698 (-33)) /\
+  f_sqrt (mkdec false 16 0) = Some (mkdec false 4 0) /\
+  f_sqrt (mkdec false 1 (-6176)) = Some (mkdec false 1 (-3088)) /\
+  f_sqrt (mkdec false 9999999999999999999999999999999999 6111) = Some (mkdec false 3162277660168379331998893544432718 3039) /\
+  sqrt_nearest_even_at (mkdec false 2 0) 1414213562373095048801688724209698 (-33) (-33) /\
+  (2 * 1414213562373095048801688724209698 - 1) ^ 2 < 4 * 2 * 10 ^ 66 < (2 * 1414213562373095048801688724209698 + 1) ^ 2.
+Proof. exact sqrt_examples. Qed.
 
 (* + and * : the exact integer result, then one rounding; exact when the exact result is representable *)
 Theorem C02_add_exact_then_round : forall a b,
@@ -122,6 +164,11 @@ Print Assumptions C02_round34_in_format.
 Print Assumptions C02_div_sticky.
 Print Assumptions C02_div_drops_at_least_3.
 Print Assumptions C02_sqrt_sticky.
+Print Assumptions C02_sqrt_root_digits.
+Print Assumptions C02_sqrt_drops_at_least_3.
+Print Assumptions C02_sqrt_correctly_rounded.
+Print Assumptions C02_sqrt_defined.
+Print Assumptions C02_sqrt_nonvacuous.
 Print Assumptions C02_add_exact_then_round.
 Print Assumptions C02_mul_exact_then_round.
 Print Assumptions C02_add_exact.
